@@ -404,6 +404,11 @@ func (c *Context) onCommand(message *messages.NoneArgsCommandMessage) {
 	c.Logger().Debug("receive command", log.String("path", c.ref.GetPath()), log.String("command", message.Command.String()))
 	switch message.Command {
 	case messages.CommandPauseMailbox:
+		if c.zombie {
+			// 僵尸 Actor 必须持续排空邮箱（消息直接丢弃/进入死信）且只能通过 Kill 释放；
+			// 若因兄弟节点故障的监管决策被挂起，之后的优雅 Kill（普通消息）将永远无法被处理，父节点与 System.Stop 会被其阻塞
+			return
+		}
 		c.mailbox.Pause()
 		// 通知事件流
 		c.EventStream().Publish(c, ves.ActorMailboxPausedEvent{
